@@ -29,6 +29,9 @@ type GlobCase struct {
 	// Whether the link itself is part of the expansion is left open (only regular files are compared); what a
 	// link must never do is bring its target into an expansion the target's own path does not belong to
 	FileLinks []string `json:"file_links,omitempty"`
+	// RootName: the spokfile's directory is a sub-directory with this name (glob meta characters, spaces,
+	// non-ASCII, a leading dash): the pattern is relative to it, its own name is not part of any pattern
+	RootName string `json:"root_name,omitempty"`
 }
 
 // GEdit adds or removes one file.
@@ -75,6 +78,9 @@ func (globScen) Gen(r *Rng, cfg GenConfig) any {
 	if r.Chance(1, 6) {
 		c.DirLink = Pick(r, []string{"vendor->src", "lib/ext->../src/deep", "zlink->src/deep"})
 	}
+	if r.Chance(1, 6) {
+		c.RootName = Pick(r, []string{"proj [1]", "{backup}", "a*b", "what?", "sp ace", "-dash", "ünï", "back\\slash", "[x]"})
+	}
 	if r.Chance(1, 5) {
 		c.FileLinks = Subset(r, []string{"alias.js->m.txt", "src/alias.js->../.x.js", "latest.txt->src/b.txt", "zz.js->nowhere", "lib/link.js->../a.js", "src/deep/up.txt->../../.z.txt"}, 1, 2)
 		// a link whose target is missing cannot be hashed: patterns are declared as outputs in these cases
@@ -101,6 +107,11 @@ func (globScen) Exec(w *World, cc any, prop string) *Result {
 	c := cc.(*GlobCase)
 	res := newResult()
 	root := w.Proj
+	if c.RootName != "" {
+		root = filepath.Join(w.Proj, c.RootName)
+		must(os.MkdirAll(root, 0o755))
+		res.count("fault_present:unusual_project_directory_name")
+	}
 	var deps, outs []string
 	for _, p := range c.Deps {
 		deps = append(deps, `"`+p+`"`)
@@ -369,6 +380,9 @@ func (globScen) Shrinks(cc any) []any {
 	}
 	if c.DirLink != "" {
 		add(func(n *GlobCase) { n.DirLink = "" })
+	}
+	if c.RootName != "" {
+		add(func(n *GlobCase) { n.RootName = "" })
 	}
 	for i := range c.FileLinks {
 		add(func(n *GlobCase) { n.FileLinks = append(n.FileLinks[:i:i], n.FileLinks[i+1:]...) })
